@@ -17,7 +17,28 @@ def _screen_contracts():
     return sorted(r.contracts)
 
 
+def _ansi_contracts():
+    from . import ansi
+    from pyvc.cbase import Registry
+    r = Registry()
+    ansi.register(r)
+    return sorted(n for n in r.contracts if n != 'pexpect.ANSI.ANSI.process')
+
+
 PROPS = {
+    'C18': {
+        'contracts': _screen_contracts() + _ansi_contracts(),
+        'extra': 'contracts.extra_c18',
+        'bounds': {'*': {'alphabet': 'xy', 'maxlen': 1, 'ints': [0, 1, 2, 3, 4],
+                         'per_name': {'rows': [1, 2, 3], 'cols': [1, 2, 3], 'nextid': [0], 'cur_saved_r': [1, 2], 'cur_saved_c': [1, 2]}}},
+        'assumptions': [
+            'ANSI.process preserves the invariant by composition: FSM.process contract + per-action contracts + complete analysis of the extracted transition table (not a single engine proof)',
+            'transition actions called through self.action(self) modify only the FSM memory and what hangs off it (proved for every action in ANSI.py, assumed for user-supplied actions)',
+            'bytes input: the incremental decoder is a homomorphism on streams that do not end inside a character (codecs, sampled in the thorough tier); text input needs no assumption',
+            'DoLog appends to ./log: open/write/close are assumed not to raise',
+            'process() is a function of (terminal state, character): no hidden inputs',
+        ],
+    },
     'C19': {
         'contracts': _screen_contracts(),
         'bounds': {'*': {'alphabet': 'xy', 'maxlen': 1, 'ints': [0, 1, 2, 3, 4],
